@@ -51,35 +51,6 @@ Proof.
   - intros H; inversion H; auto.
 Qed.
 
-Definition optk_eqb (a b : option keyid) : bool := option_eqb Nat.eqb a b.
-Definition fld_eqb (a b : fld) : bool :=
-  Nat.eqb (f_name a) (f_name b) && Bool.eqb (f_eq a) (f_eq b) && optk_eqb (f_eq_key a) (f_eq_key b)
-  && Bool.eqb (f_order a) (f_order b) && optk_eqb (f_order_key a) (f_order_key b).
-Definition resfld_eqb (a b : res fld) : bool :=
-  match a, b with Ok x, Ok y => fld_eqb x y | VErr, VErr => true | _, _ => false end.
-
-Lemma optk_eqb_spec a b : optk_eqb a b = true <-> a = b.
-Proof.
-  destruct a, b; cbn; split; intros H; try discriminate; try reflexivity.
-  - apply Nat.eqb_eq in H. congruence.
-  - inversion H. apply Nat.eqb_refl.
-Qed.
-
-Lemma fld_eqb_spec a b : fld_eqb a b = true <-> a = b.
-Proof.
-  destruct a, b; unfold fld_eqb; cbn.
-  rewrite !andb_true_iff, !optk_eqb_spec, Nat.eqb_eq. split.
-  - intros [[[[-> H1] ->] H2] ->]. apply Bool.eqb_prop in H1, H2. congruence.
-  - intros H; inversion H; subst. rewrite !Bool.eqb_reflx. auto.
-Qed.
-
-Lemma resfld_eqb_spec a b : resfld_eqb a b = true <-> a = b.
-Proof.
-  destruct a, b; cbn; split; intros H; try discriminate; try reflexivity.
-  - apply fld_eqb_spec in H. congruence.
-  - inversion H; subst. now apply fld_eqb_spec.
-Qed.
-
 (** ** cases *)
 
 (** the other operand of a probe *)
@@ -94,7 +65,9 @@ Inductive iout :=
 
 Inductive item :=
 | IProbe (c : nat) (vals : list cval) (o : opnd)
-| IAll (c : nat) (dom : list Z).
+| IAll (c : nat) (dom : list Z)                 (* all ordered pairs over dom^k *)
+| IRow (c : nat) (dom : list Z) (xv : list Z)    (* x fixed, y ranges over dom^k *)
+| IPair (c : nat) (xv : list Z) (c' : nat) (yv : list Z).  (* two distinct int-valued instances, coded *)
 
 Inductive chain_seen :=
 | SeenErr                                         (* a definition raised ValueError *)
@@ -151,6 +124,14 @@ Definition run_item (chain : list cls) (sc : script) (it : item) : iout :=
       let vs := vectors (map Vi dom) (length attrs) in
       OAll (flat_map (fun xv => map (fun yv =>
               code (run_pair chain sc (mk_inst c attrs xv) (OInst (mk_inst c attrs yv)) false)) vs) vs)
+  | IRow c dom xv =>
+      let attrs := attrs_at chain c in
+      let vs := vectors (map Vi dom) (length attrs) in
+      OAll (map (fun yv =>
+              code (run_pair chain sc (mk_inst c attrs (map Vi xv)) (OInst (mk_inst c attrs yv)) false)) vs)
+  | IPair c xv c' yv =>
+      OAll [code (run_pair chain sc (mk_inst c (attrs_at chain c) (map Vi xv))
+                    (OInst (mk_inst c' (attrs_at chain c') (map Vi yv))) false)]
   end.
 
 Definition model_chain (chain : list layer) (sc : script) (items : list item) : chain_seen :=
